@@ -11,9 +11,15 @@ Deductive part:
                           state of all variables it may modify), diagnostics['converged'] = True implies that every
                           entry strictly below the diagonal of the returned T has modulus <= tol; the returned Q is
                           P0^H Q_accum and T is the final iterate; guards; n = 0.
-The loop bodies (entry-level sweeps, deflation) are outside the engine's reach: that the iterate stays
-unitarily similar to A through every shift schedule, deflation decision and early exit is decided by the
-bounded stand-in: every variant x shift x budget (0, 1, 2, 5, default) on n <= 5 (6) matrix classes."""
+  pure.iteration          quaternion_schur_pure, the whole iteration, every n, budget, shift mode and exit: matrix-level loop
+                          invariants in the free algebra (Q_accum unitary; Q_accum^H (P0 A P0^H) Q_accum - H = D, where D collects
+                          the rotated deflation zeroings; inner QR sweep: Q_iter unitary, R_work = Q_iter (H - sigma I)), with the
+                          three entry-level loops entering through closed forms that are discharged at index level
+                          (pure.entry_loops: shift subtraction / addition, deflation test and running maximum as ghost functions).
+                          Result: Q unitary and Q^H A Q - T = D exactly on every exit.
+The loop bodies of the other four variants (entry-level Givens sweeps, windows, real expansion) are outside the engine's reach:
+that their iterate stays unitarily similar to A through every shift schedule, deflation decision and early exit is decided by
+the bounded stand-in: every variant x shift x budget (0, 1, 2, 5, default) on n <= 5 (6) matrix classes."""
 from __future__ import annotations
 
 import ast
@@ -32,7 +38,7 @@ from ..interp import Interp
 from ..libmodel import Library
 from ..nc import NC, Atom
 from ..rules import HavocAll
-from ..sym import Ctx, OutOfReach, SInt, SReal, SBool, cur, sand, snot, sor, ssqrt
+from ..sym import Ctx, OutOfReach, SInt, SReal, SBool, cur, sand, smax, snot, sor, ssqrt
 from ..values import FuncVal, SymList, Opaque
 from .c01 import dims
 
@@ -399,6 +405,442 @@ def variant_calls(rt):
     return calls
 
 
+# ---------------------------------------------------------------------------------------------------
+# the iteration of the pure (Householder) QR variant, every n, every budget, every exit
+def pure_iteration(rep: Report):
+    """quaternion_schur_pure at matrix level (free quaternion *-algebra; hessenbergize, check_hessenberg, householder_matrix, quat_matmat,
+    quat_hermitian, _strictly_lower_max by contract).  With B = P0 A P0^H the state of the main loop is (Q_accum, H, D) with
+          Q_accum unitary   and   Q_accum^H B Q_accum - H = D        (D: everything that was set to zero so far, rotated along)
+    and one pass of the body turns it into   (Q_accum Qi^H,  Qi H Qi^H - E,  Qi D Qi^H + E)   where Qi is the product of the embedded
+    Householder reflectors of the QR sweep (inner invariant:  Q_iter unitary,  R_work = Q_iter (H - sigma I))  and E is what the deflation
+    loop zeroed in this pass.  Hence on EVERY exit (budget exhausted, convergence break - where the last step must already be in
+    Q_accum) the returned pair satisfies   Q unitary  and  Q^H A Q - T = D  exactly, D being the sum of the rotated zeroings: the
+    similarity is exact up to the deflation decisions, for every shift mode.  The three entry-level loops (shift subtraction / addition on
+    the diagonal, deflation) enter here through their closed forms  R - sigma I,  H + sigma I,  H - E;  those closed forms are discharged
+    separately at index level (pure_entry_loops)."""
+    from ..values import HMat, fresh_hmat
+    from ..kernels import ALGEBRA
+    from ..sym import PathAbort
+    TDm = "quatica/decomp/tridiagonalize.py::"
+    HBm = "quatica/decomp/hessenberg.py::"
+    QN = SC + "quaternion_schur_pure"
+
+    class EntryQ:
+        """one quaternion entry of an abstract matrix: four reals about which nothing is known"""
+        qv_value = True
+
+        def __init__(self, tag):
+            self.w, self.x, self.y, self.z = (SReal.var(f"{tag}.{c}") for c in "wxyz")
+
+        def has_attr(self, name):
+            return name in "wxyz"
+
+    class SCol:
+        qv_value = True
+
+        def __init__(self, tag, length):
+            self.tag, self.shape, self.ndim = tag, (length,), 1
+
+        def has_attr(self, name):
+            return name in ("shape", "copy", "ndim")
+
+        def copy(self):
+            return self
+
+        def getitem(self, i):
+            return EntryQ(f"{self.tag}[{SInt.lift(i) if not isinstance(i, int) else i}]")
+
+    class SMat(HMat):
+        """abstract quaternion matrix whose entries can be read (as unknown quaternions)"""
+
+        def getitem(self, idx):
+            t = idx if isinstance(idx, tuple) else (idx,)
+            tag = cur().fresh_name("entry")
+            if len(t) == 2 and not isinstance(t[0], slice) and not isinstance(t[1], slice):
+                return EntryQ(tag)
+            if len(t) == 2 and isinstance(t[0], slice) and not isinstance(t[1], slice) and t[0].stop is None and t[0].step is None:
+                return SCol(tag, self.p.rows - (0 if t[0].start is None else t[0].start))
+            return HMat.getitem(self, idx)
+
+    class EyeMat(HMat):
+        """np.eye(n, dtype=quaternion) into which one trailing diagonal block is written: diag(I_j, S) is unitary when S is
+        (obligation C09.lemma.blockdiag_unitary); afterwards the value is a unitary matrix about which nothing else is known"""
+
+        def setitem(self, idx, val):
+            c = cur()
+            ok = isinstance(idx, tuple) and len(idx) == 2 and all(isinstance(s_, slice) and s_.stop is None and s_.step is None for s_ in idx) \
+                and isinstance(val, HMat) and ncm.nc_syntactically_equal(self.p, NC.eye(self.p.rows))
+            if not ok:
+                raise OutOfReach("write into an identity matrix other than one trailing diagonal block")
+            j0, j1 = idx[0].start, idx[1].start
+            if c.valid(SBool.mk(SInt.lift(j0) == SInt.lift(j1))) is not True:
+                raise OutOfReach("off-diagonal block written into an identity matrix")
+            ncm.dims_equal(val.shape[0], self.p.rows - j0, "block.rows")
+            ncm.dims_equal(val.shape[1], self.p.rows - j0, "block.cols")
+            st, _, _, _ = ncm.nc_equal_obligation(val.p.star @ val.p, NC.eye(val.p.rows), c.hyps())
+            if st != smt.PROVED:
+                raise OutOfReach("diagonal block that is not known to be unitary")
+            a = Atom(c.fresh_name("Hj"), self.p.rows, self.p.rows, "orth", alg="H")
+            self.p = NC.atom(a)
+
+    class Scratch:
+        qv_value = True
+
+        def __init__(self, shape):
+            self.shape = tuple(shape)
+
+        def has_attr(self, name):
+            return name == "shape"
+
+        def setitem(self, idx, val):
+            pass
+
+    def alloc(what, shape, dtype):
+        from ..values import QUAT
+        shp = shape if isinstance(shape, tuple) else (shape,)
+        if what == "eye" and dtype == QUAT:
+            return EyeMat(NC.eye(shp[0]))
+        if what in ("zeros", "empty") and len(shp) == 1:
+            return Scratch(shp)
+        return None
+
+    def k_hessenbergize(I, args, kwargs):
+        (A,) = args
+        n = A.shape[0]
+        P0 = HMat(NC.atom(Atom("P0", n, n, "orth", alg="H")))
+        B = HMat(P0.p @ A.p @ P0.p.star)                       # contract C09: H = P A P^H with P unitary
+        cur().ghost["hess"] = dict(A=A, P0=P0, B=B)
+        return P0, B
+
+    def k_check(I, args, kwargs):
+        (Hm,) = args                                           # contract C09: entries below the sub-diagonal of modulus <= atol are set to 0
+        E0 = fresh_hmat("E0", Hm.shape[0], Hm.shape[1])
+        cur().ghost["E0"] = E0
+        return SMat(Hm.p - E0.p)
+
+    def k_house(I, args, kwargs):
+        col = args[0]
+        L = col.shape[0]
+        return HMat(NC.atom(Atom(cur().fresh_name("Hsub"), L, L, "orth", alg="H")))      # contract C09: unitary (and maps col to a multiple of e1)
+
+    def k_lowmax(I, args, kwargs):
+        v = SReal.var(cur().fresh_name("lowmax"))
+        cur().assume(v >= 0)
+        return v
+
+    def sigmaI(fr):
+        s_ = fr.vars["sigma"]
+        n = fr.vars["n"]
+        return NC.eye(n, s_ if isinstance(s_, (SReal, Fraction)) else Fraction(repr(float(s_))) if isinstance(s_, float) else s_)
+
+    class ShiftSub(LoopRule):
+        """closed form of  for i in range(n): R_work[i, i] -= sigma   (index level: pure_entry_loops)"""
+        skip_body = True
+        modifies = ("R_work",)
+
+        def havoc(self, it, fr, k):
+            fr.vars["R_work"] = SMat(fr.vars["R_work"].p - sigmaI(fr))
+
+    class ShiftAdd(LoopRule):
+        skip_body = True
+        modifies = ("H",)
+
+        def havoc(self, it, fr, k):
+            fr.vars["H"] = SMat(fr.vars["H"].p + sigmaI(fr))
+
+    class Deflate(LoopRule):
+        """closed form of the deflation loop: some sub-diagonal entries are set to zero:  H - E  (index level: pure_entry_loops)"""
+        skip_body = True
+        modifies = ("H", "max_sub")
+
+        def havoc(self, it, fr, k):
+            c = cur()
+            Hm = fr.vars["H"]
+            E = fresh_hmat(c.fresh_name("E"), Hm.shape[0], Hm.shape[1])
+            fr.vars["H"] = SMat(Hm.p - E.p)
+            ms = SReal.var(c.fresh_name("max_sub"))
+            c.assume(ms >= 0)
+            fr.vars["max_sub"] = ms
+            c.ghost["E_step"] = E
+
+    class QRSweep(LoopRule):
+        """for j in range(n - 1):  Q_iter is unitary and R_work = Q_iter (H - sigma I)"""
+        modifies = ("R_work", "Q_iter")
+
+        def target(self, fr):
+            Hm = fr.vars["H"].p
+            sg = fr.vars["sigma"]
+            if (isinstance(sg, (int, float, Fraction)) and sg == 0):
+                return Hm
+            return Hm - sigmaI(fr)
+
+        def check(self, fr, phase):
+            c = cur()
+            Qi, Rw = fr.vars.get("Q_iter"), fr.vars.get("R_work")
+            ok = isinstance(Qi, HMat) and isinstance(Rw, HMat)
+            st1 = ncm.nc_equal_obligation(Qi.p.star @ Qi.p, NC.eye(Qi.p.rows), c.hyps())[0] if ok else smt.REFUTED
+            st2 = ncm.nc_equal_obligation(Rw.p, Qi.p @ self.target(fr), c.hyps())[0] if ok else smt.REFUTED
+            rec = c.ghost.setdefault("emit", [])
+            rec.append((f"sweep.{phase}.Q_iter_unitary", st1, "normal-form", 0.0, None))
+            rec.append((f"sweep.{phase}.R_work_is_Q_iter_times_shifted_H", st2, "normal-form", 0.0, None))
+
+        def establish(self, it, fr, start):
+            self.check(fr, "establish")
+
+        def havoc(self, it, fr, k):
+            c = cur()
+            n = fr.vars["n"]
+            Qi = HMat(NC.atom(Atom(c.fresh_name("Qi"), n, n, "orth", alg="H")))
+            if c.ghost.get("_havoc_kind") == "exhausted":
+                c.ghost["Qi_exit"] = Qi          # the sweep of this pass, as the code after the loop sees it
+            fr.vars["Q_iter"] = Qi
+            fr.vars["R_work"] = SMat(Qi.p @ self.target(fr))
+
+        def preserve(self, it, fr, k):
+            self.check(fr, "preserve")
+
+    class Main(LoopRule):
+        modifies = ("H", "Q_accum", "diag")
+
+        def establish(self, it, fr, start):
+            c = cur()
+            g = c.ghost
+            B = g["hess"]["B"]
+            Qa, Hm = fr.vars["Q_accum"], fr.vars["H"]
+            st = ncm.nc_equal_obligation(Qa.p.star @ Qa.p, NC.eye(Qa.p.rows), c.hyps())[0]
+            g.setdefault("emit", []).append(("main.establish.Q_accum_unitary", st, "normal-form", 0.0, None))
+            g["D_entry"] = HMat(Qa.p.star @ B.p @ Qa.p - Hm.p)      # = E0: what check_hessenberg removed
+            g["n"] = fr.vars["n"]
+
+        def havoc(self, it, fr, k):
+            c = cur()
+            g = c.ghost
+            n = g["n"]
+            B = g["hess"]["B"]
+            if c.decide(SBool.mk(SInt.lift(k) == 0)):
+                Qa, D = HMat(NC.eye(n)), g["D_entry"]
+            else:
+                Qa = HMat(NC.atom(Atom(c.fresh_name("Qa"), n, n, "orth", alg="H")))
+                D = fresh_hmat(c.fresh_name("D"), n, n)
+            g["Qa"], g["D"] = Qa, D
+            fr.vars["Q_accum"] = Qa
+            fr.vars["H"] = SMat(Qa.p.star @ B.p @ Qa.p - D.p)
+            L = SInt.var(c.fresh_name("n_it"))
+            c.assume(L >= 0)
+            fr.vars["diag"] = {"iterations": SymList(L, "iterations"), "converged": False, "iterations_run": 0}
+            g.pop("E_step", None)
+            g["head_H"] = fr.vars["H"]
+
+        def preserve(self, it, fr, k):
+            c = cur()
+            g = c.ghost
+            rec = g.setdefault("emit", [])
+            for nm, s_ in after_body(fr):
+                rec.append((f"main.preserve.{nm}", s_, "normal-form", 0.0, None))
+            dg = fr.vars.get("diag")
+            ok = isinstance(dg, dict) and dg.get("converged") is False
+            rec.append(("main.preserve.a_pass_that_does_not_stop_leaves_converged_False", smt.PROVED if ok else smt.REFUTED, "syntactic", 0.0, None))
+
+    def after_body(fr):
+        """(Q_accum, H) after one complete pass against the head state (Qa, Qa^H B Qa - D): unitary, and the discrepancy is Qi D Qi^H + E"""
+        c = cur()
+        g = c.ghost
+        B, Qa, D = g["hess"]["B"], g["Qa"], g["D"]
+        Qn, Hn, Qi, E = fr.vars.get("Q_accum"), fr.vars.get("H"), fr.vars.get("Q_iter"), g.get("E_step")
+        if not all(isinstance(x, HMat) for x in (Qn, Hn, Qi)) or E is None:
+            return [("state_after_a_pass_is_matrix_valued", smt.REFUTED)]
+        s1 = ncm.nc_equal_obligation(Qn.p.star @ Qn.p, NC.eye(Qn.p.rows), c.hyps())[0]
+        Dn = Qi.p @ D.p @ Qi.p.star + E.p
+        s2 = ncm.nc_equal_obligation(Qn.p.star @ B.p @ Qn.p - Hn.p, Dn, c.hyps())[0]
+        g["D_after"] = HMat(Dn)
+        return [("Q_accum_stays_unitary", s1), ("discrepancy_is_rotated_old_discrepancy_plus_this_pass_zeroings", s2)]
+
+    lib = Library("nc")
+    lib.qmode = "H"
+    lib.alloc_hooks.append(alloc)
+    contracts = dict(ALGEBRA)
+    contracts.update({HBm + "hessenbergize": k_hessenbergize, HBm + "check_hessenberg": k_check, TDm + "householder_matrix": k_house, SC + "_strictly_lower_max": k_lowmax})
+    rules = {(QN, 0): Main(), (QN, 1): ShiftSub(), (QN, 2): QRSweep(), (QN, 3): ShiftAdd(), (QN, 4): Deflate()}
+    for mode in ("none", "rayleigh"):
+        def setup(I, ctx, mode=mode):
+            (n,) = dims(ctx, "n")
+            ctx.assume(n >= 1, base=True)
+            A = fresh_hmat("A", n, n)
+            K, tol = SInt.var("max_iter"), SReal.var("tol")
+            ctx.assume(sand(K >= 0, tol >= 0), base=True)
+            return [A], dict(max_iter=K, tol=tol, return_diagnostics=True, shift_mode=mode), (A, n)
+
+        def post(I, ctx, outcome, val, aux, mode=mode):
+            A, n = aux
+            g = ctx.ghost
+            if outcome == "loop_end":
+                return list(g.get("emit", []))          # end of a generic iteration of the sweep / of the main loop: the invariant obligations recorded on this path
+            if outcome != "return" or not (isinstance(val, tuple) and len(val) == 3 and isinstance(val[0], HMat) and isinstance(val[1], HMat)):
+                return [("returns_Q_T_diagnostics", False)] if outcome == "return" else []
+            Q, T = val[0], val[1]
+            out = list(g.get("emit", [])) + [("returns_Q_T_diagnostics", True)]
+            c = ctx
+            s1 = ncm.nc_equal_obligation(Q.p.star @ Q.p, NC.eye(n), c.hyps())[0]
+            out.append(("Q_is_unitary", s1, "normal-form", 0.0, None))
+            # which discrepancy belongs to this exit: loop ran to completion -> D of the head state; break inside a pass -> D after that pass
+            if g.get("phase") == "generic":
+                Qi, E, D0 = g.get("Qi_exit"), g.get("E_step"), g.get("D")
+                D = HMat(Qi.p @ D0.p @ Qi.p.star + E.p) if (Qi is not None and E is not None and D0 is not None) else None
+            elif g.get("phase") == "exhausted":
+                D = g.get("D")
+            else:
+                D = g.get("D_entry")        # n such that the loop is never entered cannot happen (max_iter >= 0 symbolic): kept for completeness
+            if D is None:
+                out.append(("QH_A_Q_minus_T_is_the_accumulated_zeroings", smt.UNDECIDED, "", 0.0, "state at the break not recorded"))
+            else:
+                st, be, secs, wit = ncm.nc_equal_obligation(Q.p.star @ A.p @ Q.p - T.p, D.p, c.hyps())
+                out.append(("QH_A_Q_minus_T_is_the_accumulated_zeroings", st, be, secs, wit or None))
+            return out
+        run_case(rep, P, QN, f"iteration.shift_{mode}", setup, post, lib=lib, contracts=contracts, loop_rules=rules,
+                 clauses=["returns_Q_T_diagnostics", "Q_is_unitary", "QH_A_Q_minus_T_is_the_accumulated_zeroings", "main.establish.Q_accum_unitary",
+                          "sweep.establish.Q_iter_unitary", "sweep.establish.R_work_is_Q_iter_times_shifted_H", "sweep.preserve.Q_iter_unitary", "sweep.preserve.R_work_is_Q_iter_times_shifted_H",
+                          "main.preserve.Q_accum_stays_unitary", "main.preserve.discrepancy_is_rotated_old_discrepancy_plus_this_pass_zeroings",
+                          "main.preserve.a_pass_that_does_not_stop_leaves_converged_False"], replay=replay_variants, timeout_s=30, loop_end=True, max_paths=600)
+
+
+def pure_entry_loops(rep: Report):
+    """The three entry-level loops of quaternion_schur_pure at index level (all n; matrix products, reflectors, the QR sweep replaced by
+    arbitrary arrays), i.e. the closed forms the matrix-level proof (pure_iteration) uses:
+        shift subtraction   R_work = H - sigma I          shift addition   H = (R_work Q_k) + sigma I
+        deflation           H_after(r, c) = 0  if c = r - 1 and |H(r, r-1)| <= tol max(1, |H(r-1,r-1)| + |H(r,r)| + 1e-30),  H(r, c) otherwise
+    (so H - H_after = E is supported on the sub-diagonal and every removed entry is below the deflation threshold), and
+    max_sub is the maximum of the sub-diagonal moduli seen (witness form: max_sub >= |H(r, r-1)| for every r)."""
+    from ..rules import FunctionalInv
+    TDm = "quatica/decomp/tridiagonalize.py::"
+    QN = SC + "quaternion_schur_pure"
+    zi = SInt.lift
+
+    def k_hessenbergize(I, args, kwargs):
+        (A,) = args
+        n = A.shape[0]
+        return fresh_q("P0", (n, n)), fresh_q("H0", (n, n))
+
+    def k_matmat(I, args, kwargs):
+        A, B = args
+        ncm.dims_equal(A.shape[1], B.shape[0], "conformable.matmul")
+        return fresh_q("prod", (A.shape[0], B.shape[1]))
+
+    def k_house(I, args, kwargs):
+        L = args[0].shape[0]
+        return fresh_q("Hsub", (L, L))
+
+    def k_lowmax(I, args, kwargs):
+        v = SReal.var(cur().fresh_name("lowmax"))
+        cur().assume(v >= 0)
+        return v
+    contracts = {HB + "hessenbergize": k_hessenbergize, HB + "check_hessenberg": lambda I, a, k: a[0], U + "quat_matmat": k_matmat, U + "quat_hermitian": k_herm,
+                 TDm + "householder_matrix": k_house, SC + "_strictly_lower_max": k_lowmax}
+
+    def qmod(q):
+        return ssqrt(ix.QScal.lift(q).norm2())
+
+    def snapshot(arr):
+        """the contents of an array at this moment, as a function of the index"""
+        cp = arr.copy()
+        return lambda r, c: cp.at(r, c)
+
+    class MainA(LoopRule):
+        """invariant 'True': a pass starts from an arbitrary H and Q_accum"""
+        modifies = ("H", "Q_accum", "diag")
+
+        def havoc(self, it, fr, k):
+            c = cur()
+            n = fr.vars["n"]
+            fr.vars["H"], fr.vars["Q_accum"] = fresh_q("Hin", (n, n)), fresh_q("Qacc", (n, n))
+            L = SInt.var(c.fresh_name("n_it"))
+            c.assume(L >= 0)
+            fr.vars["diag"] = {"iterations": SymList(L, "iterations"), "converged": False, "iterations_run": 0}
+
+    def sub_closed(it, fr, k):
+        g = cur().ghost
+        if "sub_in" not in g:
+            g["sub_in"] = snapshot(fr.vars["R_work"])
+        s_ = fr.vars["sigma"]
+        return lambda vi: ix.ite(sand(SBool.mk(zi(vi[0]) == zi(vi[1])), vi[0] < k), g["sub_in"](vi[0], vi[1]) - ix.QScal(s_), g["sub_in"](vi[0], vi[1]))
+
+    def add_closed(it, fr, k):
+        g = cur().ghost
+        if "add_in" not in g:
+            g["add_in"] = snapshot(fr.vars["H"])
+        s_ = fr.vars["sigma"]
+        return lambda vi: ix.ite(sand(SBool.mk(zi(vi[0]) == zi(vi[1])), vi[0] < k), g["add_in"](vi[0], vi[1]) + ix.QScal(s_), g["add_in"](vi[0], vi[1]))
+
+    MS = z3.Function("MSsub", z3.IntSort(), z3.RealSort())
+    SMALL = z3.Function("SMALLsub", z3.IntSort(), z3.BoolSort())      # ghost predicate: row r passes the deflation test (defined below, for every r)
+    SVF = z3.Function("SVsub", z3.IntSort(), z3.RealSort())            # ghost function: modulus of the sub-diagonal entry of row r
+    half = Fraction(1, 2)
+
+    def defl_in(fr):
+        g = cur().ghost
+        if "defl_in" not in g:
+            g["defl_in"] = snapshot(fr.vars["H"])
+        return g["defl_in"]
+
+    def comps(q):
+        return [x if isinstance(x, SReal) else SReal.mk(SReal.lift(x)) for x in ix.QScal.lift(q).c]
+
+    def definition_at(fr, r):
+        """SVF(r) and SMALL(r) are DEFINED, for every r, as the modulus of Hin(r, r-1) and as the code's deflation test on the loop's input:
+        the instance at row r, written with the code's own operations so that the square-root terms are the very ones the code produces"""
+        Hin = defl_in(fr)
+        tol = fr.vars["tol"]
+        w, x, y, z = comps(Hin(r, r - 1))
+        sv = (w * w + x * x + y * y + z * z) ** half
+        a, b = comps(Hin(r - 1, r - 1)), comps(Hin(r, r))
+        ds = (a[0] ** 2 + a[1] ** 2 + a[2] ** 2 + a[3] ** 2) ** half + (b[0] ** 2 + b[1] ** 2 + b[2] ** 2 + b[3] ** 2) ** half + Fraction(1, 10 ** 30)
+        test = sv <= tol * smax(Fraction(1), ds)
+        return sand(SBool.mk(SVF(zi(r)) == SReal.lift(sv)), SBool.mk(SMALL(zi(r)) == test.z))
+
+    def defl_closed(it, fr, k):
+        Hin = defl_in(fr)
+        return lambda vi: ix.ite(sand(SBool.mk(zi(vi[1]) == zi(vi[0]) - 1), vi[0] >= 1, vi[0] < k, SBool.mk(SMALL(zi(vi[0])))), ix.QScal(Fraction(0)), Hin(vi[0], vi[1]))
+
+    def defl_max(it, fr, k):
+        return SReal.mk(MS(zi(k)))
+
+    def defl_assume(it, fr, k):
+        c = cur()
+        c.assume(SBool.mk(MS(zi(1)) == 0))                                                   # max_sub = 0.0 before the loop (checked by establish)
+        c.assume(definition_at(fr, k))                                                       # the definitions, instantiated at the row of this step
+        c.assume(SBool.mk(MS(zi(k) + 1) == z3.If(MS(zi(k)) >= SVF(zi(k)), MS(zi(k)), SVF(zi(k)))))   # unfolding of the running maximum at this step
+        w = c.ghost.get("defl_witness")
+        if w is None:
+            w = c.ghost["defl_witness"] = SInt.var("r_witness")
+        # witness form of 'maximum': for the fixed row r_witness, once it has been visited max_sub >= its sub-diagonal modulus
+        c.assume(sor(snot(sand(w >= 1, w < k)), SBool.mk(MS(zi(k)) >= SVF(zi(w)))))
+
+    class DeflRule(FunctionalInv):
+        def preserve(self, it, fr, k):
+            FunctionalInv.preserve(self, it, fr, k)
+            c = cur()
+            w = c.ghost["defl_witness"]
+            c.require("inv.preserve", sor(snot(sand(w >= 1, w < k + 1)), SBool.mk(MS(zi(k) + 1) >= SVF(zi(w)))), "running maximum bounds the witness row after this step",
+                      key="pure.defl.inv.preserve.max_witness")
+
+    rules = {(QN, 0): MainA(), (QN, 1): FunctionalInv(arrays={"R_work": sub_closed}, tag="pure.sub."),
+             (QN, 2): HavocAll({"R_work": lambda it, fr: fresh_q("Rw", (fr.vars["n"], fr.vars["n"])), "Q_iter": lambda it, fr: fresh_q("Qit", (fr.vars["n"], fr.vars["n"]))}),
+             (QN, 3): FunctionalInv(arrays={"H": add_closed}, tag="pure.add."),
+             (QN, 4): DeflRule(arrays={"H": defl_closed}, scalars={"max_sub": defl_max}, assume=defl_assume, tag="pure.defl.")}
+
+    def setup(I, ctx):
+        (n,) = dims(ctx, "n")
+        ctx.assume(n >= 1, base=True)
+        A = ix.input_array("A", [n, n], quat=True)
+        K, tol = SInt.var("max_iter"), SReal.var("tol")
+        ctx.assume(sand(K >= 0, tol >= 0), base=True)
+        return [A], dict(max_iter=K, tol=tol, return_diagnostics=True, shift_mode="rayleigh"), (A, n, tol)
+
+    def post(I, ctx, outcome, val, aux):
+        return []
+    run_case(rep, P, QN, "entry_loops", setup, post, lib=Library("idx"), contracts=contracts, loop_rules=rules, clauses=[], replay=replay_variants, timeout_s=60,
+             loop_end=True, max_paths=600)
+
+
 def check_schur(fn, A4, budget, tol, hermitian_spectrum=None):
     from .. import runtime as rt
     n = A4.shape[0]
@@ -492,12 +934,14 @@ def bounded(rep: Report, tier, seed):
 def run(tier, seed):
     rep = Report(P, tier, seed, "exploration")
     rep.assumptions += [
-        "the iteration bodies of the five variants (entry-level Householder / Givens sweeps, deflation) are not executed by the engine: the flag and composition obligations hold for an arbitrary state left by the loop, the similarity of the iterate is decided by the bounded stand-in",
+        "the iteration bodies of four of the five variants (entry-level Givens sweeps, windows, real expansion) are not executed by the engine: the flag and composition obligations hold for an arbitrary state left by the loop, the similarity of the iterate is decided by the bounded stand-in; quaternion_schur_pure is proved through its whole iteration (householder_matrix unitary by its C09 contract)",
         "hessenbergize, check_hessenberg, quat_matmat, quat_hermitian, real_expand / real_contract are used through contracts (C09, C01, C02)",
         "floats as reals; 'accuracy governed by the deflation tolerance' is checked with the explicit bound 1e-7 n ||A||",
     ]
     rep.trusted += ["qv engine", "z3 5.1", "library model"]
     deductive(rep, tier)
+    pure_iteration(rep)
+    pure_entry_loops(rep)
     from ..frame import no_module_state
     no_module_state(rep, P, [SC + n_ for n_ in ("quaternion_schur", "quaternion_schur_pure", "quaternion_schur_pure_implicit", "quaternion_schur_unified", "quaternion_schur_experimental", "_strictly_lower_max")])
     bounded(rep, tier, seed)
